@@ -231,7 +231,7 @@ func checkC12(res *Result) {
 	M := loadGenModel()
 	S := M.S
 	res.Packages = []string{modPath + "/streams/..."}
-	res.Explanation = "The table clauses are decided exhaustively for the shipped code against the ontology closure computed independently from the four JSON-LD files: for each of the 63 types, the set of properties exposed — as struct fields, getters, setters, deserialiser calls (and the field each result is stored in), claimed member names, serialise blocks and @context merges — equals {properties whose domain meets the type's ancestors-or-self, minus those withheld from any of them} ∪ {id} ∪ {type unless typeless}, anything else being kept in the unknown map; for each of the 103 properties, the value kinds it can hold — struct members, deserialise branches and the deserialiser/codec each branch calls — equal the declared range closed under subclassing, plus IRI; functional ⇔ single slot; natural-language ⇔ a …Map spelling is read; names equal the ontology's. The numeric semantics of the literal codecs (instants, durations, numbers) are value-level and not decided."
+	res.Explanation = "The table clauses are decided exhaustively for the shipped code against the ontology closure computed independently from the four JSON-LD files: for each of the 63 types, the set of properties exposed — as struct fields, getters, setters, deserialiser calls (and the field each result is stored in), claimed member names, serialise blocks and @context merges — equals {properties whose domain meets the type's ancestors-or-self, minus those withheld from any of them} ∪ {id} ∪ {type unless typeless}, anything else being kept in the unknown map; for each of the 103 properties, the value kinds it can hold — struct members, deserialise branches and the deserialiser/codec each branch calls — equal the declared range closed under subclassing, plus IRI; functional ⇔ single slot; natural-language ⇔ a …Map spelling is read; names equal the ontology's. The numeric semantics of the literal codecs are value-level and not decided beyond a structural necessary condition: the reader and writer tables of the duration codec agree with each other and with the documented 365-day year / 30-day month, and dateTime uses RFC 3339 in both directions."
 	res.Rule("C12-R1", "type ↔ property set: fields, getters, setters, deserialiser calls, stored results, claimed keys, serialise blocks and @context merges of each type all equal the ontology's property set for it (plus id, and type unless typeless); unknown members are stored and re-emitted")
 	res.Rule("C12-R2", "property ↔ kinds: the type kinds a property can hold equal the descendants-or-self of its ranged types, its literal kinds equal its literal ranges, each deserialise branch calls the deserialiser/codec of the member it fills, and an IRI is admitted")
 	res.Rule("C12-R3", "functional in the ontology ⇔ implemented as a single slot (no element list)")
@@ -428,6 +428,8 @@ func checkC12(res *Result) {
 	for _, n := range names {
 		res.check(have[n], "C12-R4", n, "-", "ontology type "+n+" has generated code", "missing")
 	}
+	res.Rule("C12-R5", "literal codecs: the duration reader and writer use 365-day years, 30-day months, 24-hour days with the same factors in both directions and emit a unit when at least one whole unit remains; dateTime is written and first read as RFC 3339; the other codecs write the value itself")
+	checkCodecs(res, S, "C12-R5")
 	res.Functions = len(M.Types) + len(M.Props)
 	res.Assumptions = append(res.Assumptions, "the ontology reader's interpretation of domain / range / unionOf / subClassOf / @wtf_without_property / @wtf_typeless", "go/types resolution of Manager methods to packages")
 	res.Undecided = []string{"that typed accessors return the value the lexical form denotes (instants, 365-day years and 30-day months, numbers): numeric semantics of streams/values are not judged without evaluating them", "the generator templates in astool/gen (the shipped instances are checked, not the generator)"}
